@@ -122,11 +122,25 @@ Proof. exact JI_after. Qed.
    which peer and with which agent each client's last accepted request came;
    l_step, live_cond, served in Proofs/C01Live.v): whenever the promise is due —
    sane durations, cache in use, the gap plus the codec's resolution below
-   SessionExpiry, peer and agent acceptable, no cache loss since — Start returns
-   the presented ID's own session (no deletion cookie first). The clock does not
-   run backwards (mono_time). NOT PROVED along histories; tested on model runs
-   (C01_liveness_tests). *)
+   SessionExpiry, same peer and same agent as the last accepted request, no cache
+   loss since — Start returns the presented ID's own session (no deletion cookie
+   first). The clock does not run backwards (mono_time); configuration changes
+   keep the codec and the peer/agent rules (rules_kept). NOT PROVED along
+   histories; tested on model runs (C01_liveness_tests). *)
 Definition C01_liveness_statement : Prop := C01Live.C01_liveness_statement.
+
+(* The variant that promises service to every peer and agent that Start's rules
+   accept relative to the last accepted request's is false of the model: with
+   MaxSessionCacheSize = 1 a rotation evicts the session's object while
+   RegenerateID caches the replaced-ID record, so the peer and agent that Start
+   notes after the rotation reach neither cache nor store, and the next request
+   is judged against the peer before (witness: 10.0.0.1, then an address the
+   pattern does not match, then 20.0.0.1, first octet must agree; served with
+   cache size 10, refused with cache size 1). *)
+Definition C01_liveness_rules_statement : Prop := C01Live.C01_liveness_rules_statement.
+
+Theorem C01_liveness_rules_refuted : ~ C01_liveness_rules_statement.
+Proof. exact liveness_rules_refuted. Qed.
 
 (* Proved, per step: if the jar ID of a cookie-following client resolves, in
    the state before its request step, to a session record that passes Start's
@@ -171,6 +185,7 @@ Print Assumptions C01_jar_inv_meaning.
 Print Assumptions C01_jar_inv_init.
 Print Assumptions C01_jar_inv_step.
 Print Assumptions C01_jar_inv_hist.
+Print Assumptions C01_liveness_rules_refuted.
 Print Assumptions C01_live_step_partial.
 Print Assumptions C01_live_run_partial.
 (* non-vacuity and tests (Proofs/C01HistEx.v, Proofs/C01Live.v) *)
@@ -180,3 +195,4 @@ Print Assumptions step_spec_instance.
 Print Assumptions JI_instance.
 Print Assumptions live_step_instance.
 Print Assumptions C01_liveness_tests.
+Print Assumptions liveness_rules_cache10.
